@@ -223,6 +223,49 @@ def mk_named(eng, tyname, vals):
     return VStruct([vals[f] for f in names], adt.name)
 
 
+MAX_MESSAGE = 64 * 1024
+
+
+def build_dht_message(ck, src, obs=None):
+    """DhtNetworkManager::handle_dht_message (async): a frame longer than 64 KiB is refused BEFORE the postcard decoder sees it (the decoder call is
+    recorded with its path condition; past the size check the decode outcome is the environment: here it fails, the dispatch is the other obligations' subject)"""
+    import re as _re
+
+    import c04
+    from harness import run_async
+    from summaries import RESULT
+    from values import VBlob
+
+    eng = ck.engine() if obs is None else ck.meta_engine()
+    ln = src.bv("data.len", 64)
+    hyps = list(src.hyps) + [z3.ULE(ln, bv(1 << 21, 64))]
+    if obs is None:
+        decoded = []
+
+        def h_dec(e, s_, a, d, c, m):
+            decoded.append(s_.pc)
+            return VEnum(RESULT, bv(1, 8), {1: (VOpaque("postcard::Error"),)})
+
+        eng.summaries.insert(0, (_re.compile(r"^(postcard::)?from_bytes::<.*DhtNetworkMessage>$"), h_dec,
+                                 "postcard::from_bytes::<DhtNetworkMessage>: the call is recorded with its path condition; the decode outcome is the environment (fails)"))
+        st = State()
+        mgr = c04.mk_fill(eng, "DhtNetworkManager", {"config": c04.mk_fill(eng, "DhtNetworkConfig", {"local_peer_id": VStr(bv(1, 64))})})
+        st2, out = run_async(eng, ck.fn_in("DhtNetworkManager", "handle_dht_message"),
+                             [eng.alloc(st, mgr), eng.alloc(st, VBlob(src.bv("data.id", 64), ln)), eng.alloc(st, VStr(bv(2, 64)))], st)
+        pc = st2.pc
+        dec = z3.Or(*decoded) if decoded else z3.BoolVal(False)
+        is_err = out.idx == bv(1, 8)
+        refused_before = z3.And(is_err, z3.Not(dec))
+    else:
+        pc = z3.BoolVal(True)
+        refused_before = z3.BoolVal(bool(obs["refused_before_decode"]))
+        is_err = z3.BoolVal(bool(obs["is_err"]))
+    big = z3.UGT(ln, bv(MAX_MESSAGE, 64))
+    G = {"oversized_message_is_refused_before_decoding": z3.Implies(big, refused_before),
+         "message_within_the_bound_reaches_the_decoder": z3.Implies(z3.Not(big), z3.Not(refused_before))}
+    return {"eng": eng, "hyps": hyps, "goals": {g: z3.Implies(pc, f) for g, f in G.items()}, "reach": {"reach_oversized": z3.And(pc, big), "reach_decoded": z3.And(pc, z3.Not(big))}}
+
+
 def run(tier):
     ck = MirCheck("C05", tier)
     for kind in ("store", "find_node", "find_value"):
@@ -254,11 +297,27 @@ def run(tier):
                                "goals": list(R["goals"])})
 
     ck.guarded("frame", reg)
+
+    def regm():
+        src = Src()
+        R = build_dht_message(ck, src)
+        rp = harness.make_replayer(ck, "dht_network_manager", "dht_message", lambda s, obs: build_dht_message(ck, s, obs), {})
+        ck.register_src("dht_message", {}, src)
+        for g, f in R["goals"].items():
+            ck.prove(f"dht_message/{g}", R["eng"], R["hyps"], f, on_sat=rp, meta={"goal": g})
+        for g, f in R["reach"].items():
+            ck.reach(f"dht_message/{g}", R["eng"], R["hyps"], f)
+        ck.side("dht_message/side", R["eng"], R["hyps"], on_sat=rp)
+        ck.out.samples.append({"obligation": "dht_message", "goals": list(R["goals"])})
+
+    ck.guarded("dht_message", regm)
     ck.run_queries()
     ck.out.bounds = ["network::parse_protocol_message for an ARBITRARY decode result (every WireMessage the postcard decoder can produce, or an error), every u64 timestamp, every connection identity and every claimed `from`",
-                     "clock: any SystemTime with seconds < 2^40 (so now+30 cannot wrap)"]
+                     "clock: any SystemTime with seconds < 2^40 (so now+30 cannot wrap)",
+                     "DhtCoreEngine::handle_request (async): Store / FindNode / FindValue from an arbitrary data store: 512-byte value cap, find-node count cap, K for find-value",
+                     "DhtNetworkManager::handle_dht_message (async): frames of any length up to 2 MiB: longer than 64 KiB is refused before the decoder is called"]
     ck.out.outside = ["that message handling returns normally for every byte string up to 128 KiB and the decoders' allocation bounds (postcard decoding is summarised, not executed)",
-                      "the 64 KiB pre-decode size check, find-node count cap and 512-byte value/record checks (async handlers: DhtNetworkManager::handle_dht_message, DhtCoreEngine::handle_request, DhtRecord)",
+                      "DhtRecord size checks (placement records)",
                       "TransportHandle::parse_request_envelope"]
     ck.out.assumptions = ["tracing macros are effect-free", "topic and payload are abstract values compared by identity; the claimed sender and the connection identity are byte-level strings of at most 4 printable ASCII bytes"]
     ck.out.trusted.append("z3 4.8.12 / z3 5.1 / cvc5 1.0 portfolio")
@@ -269,6 +328,8 @@ def replay(path):
     def rebuild(ck, driver, params):
         if driver == "dispatch":
             return lambda s, obs: build_dispatch(ck, params["kind"], s, obs)
+        if driver == "dht_message":
+            return lambda s, obs: build_dht_message(ck, s, obs)
         return lambda s, obs: build(ck, s, obs)
 
     return harness.replay_file(path, rebuild)
